@@ -211,6 +211,16 @@ Section AGG.
           | Some (VInt x) => if Z.eqb n 0 then None else Some (VInt (Z.quot x n * m))
           | _ => None end
         else BASE e g
+      | [a; IntV n] =>
+        (* the same with a divisor of whole seconds, as a statement read back from its text has it (`/ 30`): the operator /
+           of ClickHouse is a floating-point division whatever the operand types *)
+        if String.eqb sep " / " then
+          match eva agg a g with
+          | Some v => match num_of v with
+                      | Some x => if Z.eqb n 0 then None else Some (vnum (Qdiv x (inject_Z n)))
+                      | None => None end
+          | None => None end
+        else BASE e g
       | [Raw t1; Raw op; Raw t3; Sep s2 ls; Raw t4; col; Raw t5] =>
         (* byWithoutFilterCol: mapFilter((k,v) -> k IN ('a','b'), col) *)
         if String.eqb sep "" && String.eqb t1 "mapFilter((k,v) -> k " && String.eqb t3 " (" && String.eqb s2 "," && String.eqb t4 "), "
